@@ -28,7 +28,7 @@ import common
 
 common.repo_on_path()
 
-KINDS = "nxsobBgtf"   # normal raises stream oneway batch batch-oneway getattr setattr fetch
+KINDS = "nxsobBgtfmM"   # … m: method the object no longer has, M: the same, oneway   # normal raises stream oneway batch batch-oneway getattr setattr fetch
 
 
 class ScriptEnd(BaseException):
@@ -325,6 +325,12 @@ class Net:
         sock.later = later
 
 
+def _unblob(x):
+    """an argument that travelled as a SerializedBlob (kept serialized until the method asks for it)"""
+    from Pyro5 import client
+    return x.deserialized()[0] if isinstance(x, client.SerializedBlob) else x
+
+
 class Rig:
     """one real Daemon serving a Target object; `history()` runs one proxy over one fault script"""
 
@@ -367,15 +373,32 @@ class Rig:
                 self.log[key] += 1
                 self.nlog += 1
 
+            def __getattribute__(self, name):
+                # the metadata (taken from the class) still lists these two methods, the object no longer has them
+                if name in ("ghost", "owghost"):
+                    raise AttributeError("this object has no attribute %r any more" % name)
+                return object.__getattribute__(self, name)
+
+            def ghost(self, tok):
+                self._hit((_unblob(tok), 0))
+                return ["val", _unblob(tok), 0]
+
+            @server.oneway
+            def owghost(self, tok):
+                self._hit((_unblob(tok), 0))
+
             def run(self, tok, i=0):
+                tok = _unblob(tok)
                 self._hit((tok, i))
                 return ["val", tok, i]
 
             def boom(self, tok):
+                tok = _unblob(tok)
                 self._hit((tok, 0))
                 raise ValueError("boom", tok)
 
             def strm(self, tok):
+                tok = _unblob(tok)
                 self._hit((tok, 0))
                 g = iter([["first", tok]])
                 self.gens[tok] = g
@@ -383,7 +406,7 @@ class Rig:
 
             @server.oneway
             def ow(self, tok):
-                self._hit((tok, 0))
+                self._hit((_unblob(tok), 0))
 
             @property
             def attr(self):
@@ -454,10 +477,11 @@ class Rig:
             shutil.rmtree(self.tmp, ignore_errors=True)
 
     # ---------------------------------------------------------------------------------------------
-    def history(self, retries, seq0, calls, script, stop_on_end=True, gretries=None, raw=False):
+    def history(self, retries, seq0, calls, script, stop_on_end=True, gretries=None, raw=False, blob=False):
         """run one history; returns (records, net).  record = dict(out, delta, state, seq, connects, consumed, unread, ...)
         retries  = the proxy's own _pyroMaxRetries;  gretries = config.MAX_RETRIES (default: the same value);
         raw      = the proxy runs in wire-level response mode (_pyroRawWireResponse, as the HTTP gateway does);
+        blob     = method arguments travel as a SerializedBlob (the keep-serialized form gateways use);
         one BatchProxy object is re-used for all batches of the history (a new one after a failed submit)."""
         errors, client = self.errors, self.client
         t = self.target
@@ -470,6 +494,7 @@ class Rig:
         proxy._pyroRawWireResponse = bool(raw)
         proxy._pyroSeq = seq0 % 65536
         self.batch, self.batch_uses = None, 0
+        self.blob = bool(blob)
         net.sends = 0
         sid = "c03-feed"
 
@@ -559,12 +584,17 @@ class Rig:
 
     def _do(self, proxy, fetcher, kind, tok):
         client = self.client
+        arg = client.SerializedBlob("c03", (tok,)) if self.blob else tok
         if kind == "n":
-            return self._decode(proxy.run(tok))
+            return self._decode(proxy.run(arg))
         if kind == "x":
-            return self._decode(proxy.boom(tok))
+            return self._decode(proxy.boom(arg))
+        if kind == "m":
+            return self._decode(proxy.ghost(arg))
+        if kind == "M":
+            return self._decode(proxy.owghost(arg))
         if kind == "s":
-            it = proxy.strm(tok)
+            it = proxy.strm(arg)
             if isinstance(it, client._StreamResultIterator):
                 sid = it.streamId
                 it.proxy = None          # no close_stream call when the iterator is collected
@@ -572,7 +602,7 @@ class Rig:
                 return ("stream", [k for k, v in self.target.gens.items() if v is g])
             return self._decode(it)
         if kind == "o":
-            return self._decode(proxy.ow(tok))
+            return self._decode(proxy.ow(arg))
         if kind in "bB":
             # one BatchProxy object serves every batch of the history (its call list is cleared by each submit);
             # after a submit that raised the calls stay queued by design, so a new object is taken then
@@ -614,6 +644,8 @@ def content_identity(value, exc):
         a = getattr(exc, "args", ())
         if isinstance(exc, ValueError) and len(a) == 2 and a[0] == "boom":
             return ("x", a[1])
+        if isinstance(exc, AttributeError) and a and "no attribute 'ghost' any more" in str(a[0]):
+            return ("m", None)        # the daemon's own error for the missing method; it names no token
         return ("?", repr(exc)[:80])
     v = value
     if v is None:
